@@ -462,7 +462,7 @@ def streams(tier, rng):
     yield "exh_sizes_eof_fault_location", "exact", cases
     # 5. random PDUs: pack, round trip, round trip with look-alike suffix, decode of layout ++ suffix
     cases = []
-    for _ in range(8000 if big else 900):
+    for _ in range(8000 if big else 800):
         for kn in KINDS:
             a = _rand_pdu(kn, rng)
             sfx = _suffix(rng)
